@@ -128,6 +128,16 @@ func keyMutations(r *fw.Rand) []mut {
 		mut{"key-type-unknown-no-purposes", false, func(m map[string]interface{}) { m["type"] = "FooVerificationKey2099"; delete(m, "purposes") }},
 		mut{"key-both-jwk-and-base58", false, func(m map[string]interface{}) { m["publicKeyBase58"] = gen.B58(r.Bytes(32)) }},
 		mut{"key-neither-jwk-nor-base58", false, func(m map[string]interface{}) { delete(m, "publicKeyJwk") }},
+		// key material under a name other verification-method formats use, instead of JWK / base58
+		mut{"key-ed2020-only-multibase-material", false, func(m map[string]interface{}) {
+			m["type"] = gen.TEd2020
+			delete(m, "publicKeyJwk")
+			m["publicKeyMultibase"] = "z6MkpTHR8VNsBxYAAWHut2Geadd9jSwuBV8xRoAnwWsdvktH"
+		}},
+		mut{"key-only-foreign-material-member", false, func(m map[string]interface{}) {
+			delete(m, "publicKeyJwk")
+			m[fw.Pick(r, []string{"publicKeyMultibase", "publicKeyHex", "publicKeyPem", "publicKeyBase64", "blockchainAccountId"})] = "zQ3shokFTS3brHcDQrn82RUDfCZESWL1ZdCEJwekUDPQiYBme"
+		}},
 		mut{"key-jwk2020-with-base58", false, func(m map[string]interface{}) { delete(m, "publicKeyJwk"); m["publicKeyBase58"] = gen.B58(r.Bytes(32)) }},
 		mut{"key-ed2018-with-base58", true, func(m map[string]interface{}) {
 			m["type"] = gen.TEd2018
